@@ -34,7 +34,9 @@ TRUSTED = ["Model/C11_Model.v is hand-written; tied to boltons.setutils.IndexedS
            "harness/c11.py serialiser; the two 61-bit polynomial digests (multiplier 1000003, truncated to 61 bits) stand for the full lists between snapshots",
            "harness/translators/c11_consts.py (reads _COMPACTION_FACTOR and the 384 limit from the source)",
            "harness/translators/{py2coq,c11_src}.py (Gen/C11_Src.v: _get_real_index and _get_apparent_index regenerated from "
-           "the source each run; C11_source_real_index / C11_source_apparent_index prove them equal to the model's loops)"]
+           "the source each run; C11_source_real_index / C11_source_apparent_index prove them equal to the model's loops)",
+           "harness/translators/c11_cull.py (Gen/C11_Cull.v: _cull regenerated from the source each run - branch order, "
+           "conditions, constants, both right-trim loops; C11_source_cull proves it equal to the model's m_cull)"]
 
 DG_MOD = 2305843009213693951
 BAD_TOK = 999999
@@ -46,8 +48,10 @@ def translators(repo):
     sys.path.insert(0, os.path.join(os.path.dirname(os.path.abspath(__file__)), "translators"))
     import c11_consts
     import c11_src
+    import c11_cull
     out = {"C11_Gen": c11_consts.render(repo)}
     out.update(c11_src.generate(repo))       # Gen/C11_Src.v: _get_real_index / _get_apparent_index from the source
+    out.update(c11_cull.generate(repo))      # Gen/C11_Cull.v: _cull from the source
     return out
 
 
